@@ -174,3 +174,22 @@ _stack("C13", "TestC13",
        "a checkpoint is held only with RF replicas RW, persisted by each and contained in each chain, equals every chain[1] right after a promotion that "
        "completes the set, is empty after a failed set-checkpoint or any departure; non-trivial = >=1 successful snapshot taken during a race", 80, 2500)
 PLAN["C13"]["technique"] = "model-based property testing (rapid) with real concurrent writers and snapshot requests; consistent-cut oracle on snapshot images"
+
+PLAN["C08"] = {
+    "level": "fault_enumeration",
+    "rule": ("generated pre-state (engine op program: writes, user/auto snapshots, removals, reverts, checkpoint; captured after a clean close or while open = dirty) x one operation "
+             "under test (write of each shape class, snapshot fresh/duplicate, cleaner-style removal, mark-removed, revert, resize, set-checkpoint, set-rebuilding, "
+             "set-clone-status, set-revision-counter, close, open); the operation runs in a victim process (test binary, main goroutine wired to the main thread) under "
+             "strace: run 1 records the main thread's file-system calls between two markers, then on fresh extent-exact copies of the pre-state one run per selected call "
+             "with SIGKILL injected on entry to it (= the state between two calls) and one run per (call, errno in ENOSPC/EIO) with that call failing; after a death the copy "
+             "must reopen (with and without preload) to the chain/image/snapshots/counter of the state before or after (interrupted write: old or new per sector inside "
+             "the range only); after a failed call: success => post-state and parsable metadata, failure => pre-state intact; trace lint: every directory update of a "
+             "successful operation is followed by an fsync of the directory, metadata temp files are O_SYNC; quick samples 2-4 calls per pair, thorough enumerates all "
+             "calls of each pair (exhaustive_pairs); non-trivial = a pair with at least one injected run; distinct = FNV hash of the case"),
+    "assumptions": ["process death model: every completed system call persists (the kernel survives); power loss is covered only by the fsync lint",
+                    "strace -e inject addresses a point as the K-th call of a name on the victim's main thread; operations are single-threaded for file-system calls (verified by the recorded trace being identical between runs)",
+                    "hole punching is off in victims (asynchronous reclamation is C06's subject)"],
+    "technique": "generated pre-state x operation, strace-driven enumeration of crash points and single-call failures, reopen-vs-model oracle",
+    "quick": {"wall": 170, "tests": [{"run": "TestC08", "shards": 16, "checks": 30, "timeout": 150, "shrink": "30s"}]},
+    "thorough": {"wall": 1500, "tests": [{"run": "TestC08", "shards": 16, "checks": 40, "timeout": 1400, "shrink": "120s"}]},
+}
